@@ -21,7 +21,9 @@ Property theorems about the index model `SSVerif/Model/AcmodBuf.lean` of `acmod.
 Hypotheses, both facts about the front end / the utterance length that the property itself assumes:
 `hcmn` — the utterance is shorter than the CMN update window (`cmn->nframe` + frames offered ≤ `CMN_WIN_HWM`);
 `hfe` — `fe_end` emits the pending partial frame whenever a frame was emitted before (C06's contract; checked on
-every run of the correspondence harness).
+every run of the correspondence harness).  `Props/C07Fe.lean` removes both the response lists and `hfe` for streaming
+utterances: there the front end is c06's model called inside `acmod_process_raw` / `acmod_end_utt` with the room the
+ring really has, the responses are computed, and `hfe` is proved (`C07_runUttS_eq_runUtt`).
 
 `M := sf.nextId` is the number of cepstral frames the front end delivered, `canon win M k` the window
 `c_clamp(k-win) … c_clamp(k+win)` with every frame normalised exactly once with the mean fixed at the start.
